@@ -310,7 +310,51 @@ func (i *yamlInputIter) Next() (any, bool) {
 		i.err = &yamlParseError{i.fname, i.ir.getContents(nil, nil), err}
 		return i.err, true
 	}
-	return v, true
+	return normalizeYAML(v), true
+}
+
+// normalizeYAML rewrites the number literals in v, which keep their YAML
+// spelling, as JSON number literals.
+func normalizeYAML(v any) any {
+	switch v := v.(type) {
+	case json.Number:
+		return normalizeYAMLNumber(v)
+	case []any:
+		for i, x := range v {
+			v[i] = normalizeYAML(x)
+		}
+	case map[string]any:
+		for k, x := range v {
+			v[k] = normalizeYAML(x)
+		}
+	}
+	return v
+}
+
+// normalizeYAMLNumber removes what YAML allows in a decimal number but JSON
+// does not: a plus sign, leading zeros and a point without digits around it
+// (+1, 007.5, .5, 1., 1.e3). The digits are kept as they are.
+func normalizeYAMLNumber(n json.Number) json.Number {
+	s := strings.TrimPrefix(string(n), "+")
+	var sign string
+	if strings.HasPrefix(s, "-") {
+		sign, s = "-", s[1:]
+	}
+	var exp string
+	if i := strings.IndexAny(s, "eE"); i >= 0 {
+		s, exp = s[:i], s[i:]
+	}
+	s, frac, _ := strings.Cut(s, ".")
+	if s = strings.TrimLeft(s, "0"); s == "" {
+		s = "0"
+	}
+	if frac != "" {
+		s += "." + frac
+	}
+	if s = sign + s + exp; s == string(n) {
+		return n
+	}
+	return json.Number(s)
 }
 
 func (i *yamlInputIter) Close() error {
